@@ -183,17 +183,19 @@ def decide(case, wctx):
         # the second execution of the identity wipes the job directory while the finished first one is being read
         # (results are read without the job lock) -> "Could not find results of ... node" (before the lazy.py repair
         # that message itself crashed with AttributeError 'readonly_caches')
-        if len(problems) == 1 and problems[0]["why"] == "submission failed":
-            op = case["ops"][problems[0]["step"]]
-            e = problems[0]["error"]
-            # keyed by the history class (the failing submission is a propagated rerun, under the process pool, of a workflow
-            # that holds one identity twice); faces seen so far: "Could not find results of ... node", "Not able to get any
-            # more tasks but the following nodes ... are not done"
-            if op.get("task") in DUP and op.get("rerun") and op.get("propagate") and op.get("worker") == "cf" and e:
-                r["mech"] = "rerun-duplicate-identity-race"
-        if all(p.get("shadowed") for p in problems if p["why"].startswith("executed although")) and \
-                all(p["why"].startswith("executed although") for p in problems):
-            r["mech"] = "incomplete-dir-shadows-readonly"
+        race_whys = ("submission failed", "executed although a complete result was available",
+                     "not executed although rerun was requested / no result existed")
+
+        def racy(pb):
+            op = case["ops"][pb["step"]]
+            return (pb["why"] in race_whys and op.get("task") in DUP and op.get("rerun") and op.get("propagate")
+                    and op.get("worker") == "cf")
+        # keyed by the history class: every problem sits at a submission that is a propagated rerun, under the process pool,
+        # of a workflow that holds one identity twice, and is a failure of that submission or a wrong execution count in it
+        # (faces seen: "Could not find results of ... node", "Not able to get any more tasks but the following nodes ... are
+        # not done", and an execution-count mismatch reported by the sandbox check run of 2026-09-22)
+        if all("step" in pb and racy(pb) for pb in problems):
+            r["mech"] = "rerun-duplicate-identity-race"
     else:
         r["verdict"] = "held"
     return r
